@@ -10,6 +10,7 @@ import (
 	"os"
 	"os/exec"
 	"runtime"
+	"runtime/debug"
 	"sort"
 	"strings"
 	"time"
@@ -149,6 +150,23 @@ func detWorkload(t *sim.Tape) (ops []detOp, desc string) {
 			}
 		}
 		return sb.String()
+	}})
+	// inputs that allocate a lot and keep little: a quarter of a gigabyte of
+	// strings that are dropped at once
+	nbig := 2500 + t.Choose(1500)
+	ops = append(ops, detOp{name: "ReadCMap / type1.Read of inputs that allocate 160-260 MB of short-lived strings", run: func() string {
+		alloc := fmt.Sprintf("%d { 65535 string pop } repeat\n", nbig)
+		d, err := postscript.ReadCMap(strings.NewReader("/CIDInit /ProcSet findresource begin 12 dict begin begincmap /CMapName /G def 1 begincodespacerange <00> <ff> endcodespacerange\n" + alloc + "endcmap CMapName currentdict /CMap defineresource pop end end\n"))
+		r := dump.Err(err)
+		if d != nil {
+			r += " " + dump.Object(d)
+		}
+		tf := gen.TinyFont(sim.ReplayTape([]uint32{1, 2}))
+		if i := bytes.IndexByte(tf, '\n'); i > 0 {
+			tf = append(append(append([]byte{}, tf[:i+1]...), alloc...), tf[i+1:]...)
+		}
+		g, err2 := type1.Read(bytes.NewReader(tf))
+		return r + " | " + dump.Err(err2) + " " + dump.Font(g)
 	}})
 	// the budget error (a shared value) with whatever text and position
 	// information it carries, several times over
@@ -433,7 +451,7 @@ type orderSpec struct {
 func C17() *sim.Check {
 	sitesByID := loadSites()
 	libGoroutines, libBlocking := sitesOfKind("go") > 0, sitesOfKind("blocking") > 0
-	b := &sim.Batch{Name: "orders", Quick: 900, Thorough: 30_000, Isolated: true, PerProc: 40, Workers: 16, ChildTimeout: 1800 * time.Second, StallAfter: 300 * time.Second, Env: []string{"TZ=America/St_Johns"}}
+	b := &sim.Batch{Name: "orders", Quick: 900, Thorough: 30_000, Isolated: true, PerProc: 40, Workers: 16, ChildTimeout: 1800 * time.Second, StallAfter: 300 * time.Second, Env: []string{"TZ=America/St_Johns", "GOMEMLIMIT=3GiB"}}
 	b.ChildInit = startDetHelper
 	b.Run = func(c *sim.RunCtx) *sim.Outcome {
 		t := c.T
@@ -505,11 +523,23 @@ func C17() *sim.Check {
 					continue
 				}
 				churn(t)
+				// one execution in eight runs with the garbage collector switched
+				// off (as under GOGC=off): how much garbage lies around is part of
+				// the process's state, not of the input
+				gcOff := !op.heavy && t.Choose(8) == 0
+				if gcOff {
+					debug.SetGCPercent(-1)
+					c.St.Inc("fired_collector_switched_off")
+				}
 				recBefore := len(t.Rec)
 				_, _, before := simrt.OrderStats()
 				simrt.SetOrder(o.mode, t)
 				got := safeOp(op)
 				simrt.SetOrder(simrt.OrderSorted, t)
+				if gcOff {
+					debug.SetGCPercent(100)
+					runtime.GC()
+				}
 				_, _, after := simrt.OrderStats()
 				c.St.Inc("op_executions")
 				if after > before {
